@@ -213,7 +213,7 @@ def labels_obligation(prop, floor=0):
         # E6 at stores: a column computed in one row space (one selection / order of particles) stored into a table in another
         for it in its:
             for e in it.events:
-                if e.kind != "space-mismatch" or e.name != "store":
+                if e.kind != "space-mismatch" or e.name not in ("store", "filter"):
                     continue
                 k = (e.fn, id(e.node), "space")
                 if k in seen:
@@ -224,6 +224,11 @@ def labels_obligation(prop, floor=0):
                 except Exception:  # noqa
                     m = None
                 ctx.count(1, None)
+                if e.name == "filter":
+                    ctx.finding(e.fn, e.node, f"a row mask computed on '{e.extra['value_space'].chain()}' is applied by position to the table "
+                                f"'{e.extra['frame_space'].chain()}': the two are different selections / orders of the particles, so the wrong rows "
+                                "are kept", e.node, m)
+                    continue
                 ctx.finding(e.fn, e.node, f"values computed for the rows of '{e.extra['value_space'].chain()}' are stored into the table "
                             f"'{e.extra['frame_space'].chain()}' (columns {e.extra.get('names')}): the two are different selections / orders of the "
                             "particles, so values are paired with the wrong particles", e.node, m)
